@@ -182,10 +182,27 @@ func VerifC14Proj(ne, layout int) {
 		de.Add(x)
 	}
 	var p Triplestore = ts.Projection(dn, de)
-	if verifrt.NondetChoice("second layer", 2) == 1 {
-		x := verifID(layout, base, "second deleted node")
-		delN = append(delN, x)
-		p = p.Projection(cardinality.NewBitmap64With(x), cardinality.NewBitmap64())
+	if layer := verifrt.NondetChoice("second layer", 3); layer > 0 {
+		parent, parentN, parentE := p, append([]uint64{}, delN...), append([]uint64{}, delE...)
+		callerNodes, callerEdges := dn.Cardinality(), de.Cardinality()
+		if layer == 1 {
+			x := verifID(layout, base, "second deleted node")
+			delN = append(delN, x)
+			p = p.Projection(cardinality.NewBitmap64With(x), cardinality.NewBitmap64())
+		} else {
+			x := verifID(layout, base, "second deleted edge")
+			delE = append(delE, x)
+			p = p.Projection(cardinality.NewBitmap64(), cardinality.NewBitmap64With(x))
+		}
+		// deriving a projection changes neither the parent projection nor the caller's sets
+		parentSpec := verifrt.And(verifSpecAdj(edges, parentN, parentE, n, m, dir), verifrt.Not(verifIn(n, parentN)))
+		verifrt.Assert(verifAdjacent(parent, n, m, dir) == parentSpec, "projection: adjacency set equals the edge list's minus deleted nodes and edges")
+		parentLive := 0
+		for _, e := range edges {
+			parentLive += verifrt.B2I(verifrt.Not(verifrt.Or(verifIn(e.id, parentE), verifrt.Or(verifIn(e.start, parentN), verifIn(e.end, parentN)))))
+		}
+		verifrt.Assert(parent.NumEdges() == uint64(parentLive), "projection: NumEdges counts live edges")
+		verifrt.Assert(dn.Cardinality() == callerNodes && de.Cardinality() == callerEdges, "projection: the caller's deletion sets are not modified")
 	}
 	spec := verifrt.And(verifSpecAdj(edges, delN, delE, n, m, dir), verifrt.Not(verifIn(n, delN)))
 	verifrt.Assert(verifAdjacent(p, n, m, dir) == spec, "projection: adjacency set equals the edge list's minus deleted nodes and edges")
